@@ -158,6 +158,8 @@ def atom_deps(atom):
                             calls.add(x[2])
                         elif x[0] == "phi":
                             phis.add(x[1])
+                        elif x[0] == "sum":
+                            phis.add(x[2])
                         elif x[0] == "resume":
                             calls.add(x[1])
     return calls, phis
@@ -260,6 +262,12 @@ class GEA:
             need.add(0)
         for d in pv.defsites.get(0, []):
             need |= P.phi_locals(pv.def_term(d))
+        # a local that is a different literal on different paths (`let value = match u { Low => "urgency=low", High => .. }`):
+        # which literal reaches a use is decided by the path, like any other value bound before it is used
+        for l in pv.phi_locals:
+            ds = pv.defsites.get(l, [])
+            if 2 <= len(ds) <= 8 and not (1 <= l <= self.body.arg_count) and all(d[1] != "T" and pv.def_term(d)[0] == "const" for d in ds):
+                need.add(l)
         self.tracked |= need
         self.tracked &= (pv.phi_locals | {0})
         # a tracked local defined as a copy of / an aggregate over other multi-def locals: track those too, so that a
@@ -601,6 +609,19 @@ class GEA:
                 if atom[1][1][1] in P.STD_SUM_TYPES:
                     vname = norm_variant_name(vname)
                 return [(tg, val) for tg, vs in arms.items() if vname in vs]
+            if atom[0] == "VARIANT" and atom[1][0] == "sum":
+                # the payload of one variant of a multi-def local (Ok(None) on one path, Ok(Some(x)) on another): the
+                # definition selected in this valuation says which literal it is
+                sel = val.get(("def", atom[1][2]))
+                if sel is not None and len(sel) == 1 and next(iter(sel))[0] != "param":
+                    dt = self.prov.def_term(next(iter(sel)))
+                    if dt[0] == "agg" and isinstance(dt[1], tuple) and dt[1][0] == "adt" and dt[1][2] == atom[1][3] and len(dt[2]) == 1:
+                        r = dt[2][0][1]
+                        if r[0] == "agg" and isinstance(r[1], tuple) and r[1][0] == "adt":
+                            vname = r[1][2]
+                            if r[1][1] in P.STD_SUM_TYPES:
+                                vname = norm_variant_name(vname)
+                            return [(tg, val) for tg, vs in arms.items() if vname in vs]
             if atom[0] == "VARIANT" and atom[1][0] != "phi" and P.phi_locals(atom[1]):
                 # a match on a value wrapped around a multi-def local (`helper(..)?` returning Ok(Decision::X) on several
                 # paths): if the definitions selected in this valuation make it a literal variant, the arm is static
